@@ -76,6 +76,8 @@ type FaultBucket struct {
 	Ops    []Op
 	plans  []Plan
 	Fired  []Plan
+	// OnFire, if set, is called (once per fired plan, before the failing operation returns)
+	OnFire func()
 }
 
 // NewFaultBucket wraps b. plans may be empty (pure recording).
@@ -94,6 +96,9 @@ func (f *FaultBucket) step(path, kind string) (FaultMode, string) {
 	for _, p := range f.plans {
 		if p.Op == op {
 			f.Fired = append(f.Fired, p)
+			if f.OnFire != nil {
+				f.OnFire()
+			}
 			return p.Mode, p.ErrKind
 		}
 	}
